@@ -87,6 +87,9 @@ func Main(all []*Scenario) {
 	if *fReplay != "" {
 		os.Exit(replayFile(byName, *fReplay))
 	}
+	if os.Getenv("VRT_DEBUG") != "" {
+		Debug = true
+	}
 	if *fPicks != "" {
 		var p []PrefixEnt
 		for _, f := range strings.Split(*fPicks, ",") {
@@ -234,6 +237,9 @@ func printExec(x *Exec) {
 	if x.Diverged != "" {
 		fmt.Println("DIVERGED", x.Diverged)
 	}
+	for _, l := range x.ThreadSummary() {
+		fmt.Println("THREAD", l)
+	}
 	fmt.Printf("points=%d choices=%d vtime=%s\n", x.Points, len(x.Trace), time.Duration(x.clockNS))
 }
 
@@ -344,7 +350,7 @@ func exploreScenario(sc *Scenario, b Bounds, tier string, workers int, verbose b
 
 func exploreAtBound(sc *Scenario, bound int, b Bounds, tier string, workers int, deadline time.Time) *Stats {
 	st := newStats(sc, bound)
-	if workers <= 1 || bound == 0 {
+	if workers <= 1 {
 		ExploreSubtree(sc, nil, bound, int64(b.MaxExecs), deadline, st)
 		return st
 	}
